@@ -318,7 +318,7 @@ void run_config(const Plan &p, int exhaustive_level) {
     int reps = quick ? 1 : 4;
     for (int rep = 0; rep < reps; ++rep)
         for (auto &kind : kinds) {
-            for (int where = 0; where < 5; ++where) {
+            for (int where = 0; where < 6; ++where) {
                 size_t nmax = quick ? 300 : 3000;
                 size_t n = where >= 3 ? 20 + rng.below(nmax) : 1 + rng.below(rng.chance(1, 3) ? 12 : nmax);
                 ExecPlan pl{kind, n, where, 0, where < 3, {kind}, rng.next(), {}};
@@ -326,6 +326,7 @@ void run_config(const Plan &p, int exhaustive_level) {
                 if (where == 2) pl.tags.push_back("ends_at_max-1");
                 if (where == 3) pl.tags.push_back("wide");
                 if (where == 4) pl.tags.push_back("clustered");
+                if (where == 5) pl.tags.push_back("full_span");
                 run_exec<K, Eps, EpsRec, F>(pl);
             }
             // (3) forced chunking with seams inside / at the ends of duplicate runs
